@@ -41,7 +41,7 @@ struct C21 : vf::Engine {
 
     Plan generate(uint64_t seed, const std::string& tier, const std::string& mode) override {
         Rng r(seed); Plan p; p.property = "C21"; p.seed = seed; bool faults = mode == "faults";
-        int integ = (int)r.below(17); integ = integ < 16 ? integ / 2 : 8;   // CPodes (known findings, frequent legitimate step failures on these models) gets a smaller share
+        int integ = (int)r.below(NINTEG);
         p.setcfg("integ", integ);
         int nb = r.range(2, 5); std::string model;
         for (int b = 0; b < nb; ++b) { int t = (int)r.below(10); char c = t < 4 ? 'P' : t < 5 ? 'S' : t < 6 ? 'U' : t < 9 ? 'B' : 'F'; model += c; model += std::to_string(r.below(b + 1)); model += ' '; }
@@ -58,8 +58,10 @@ struct C21 : vf::Engine {
         p.setcfgr("fixed", fixed ? r.pick(std::vector<double>{0.0005, 0.001, 0.002, 0.004}) : 0.0);
         p.setcfgr("maxstep", (!fixed && r.chance(0.3)) ? r.pick(std::vector<double>{0.01, 0.03, 0.1}) : 0.0);
         double T = r.uni(0.3, 2.0); p.setcfgr("final", r.chance(0.7) ? T : -1.0);
-        p.setcfg("every", r.chance(0.25) ? 1 : 0); p.setcfg("interp", r.chance(0.85) ? 1 : 0);
-        p.setcfg("projevery", r.chance(0.3) ? 1 : 0); p.setcfg("projinterp", r.chance(0.75) ? 1 : 0); p.setcfg("infnorm", r.chance(0.3) ? 1 : 0); p.setcfg("fullnewton", r.chance(0.1) ? 1 : 0);
+        // tri-state options: -1 = the setter is never called (the documented default applies), 0 = off, 1 = on
+        auto tri = [&](double pUnset, double pOn) { double u = r.uni(); return u < pUnset ? -1 : u < pUnset + pOn ? 1 : 0; };
+        p.setcfg("every", tri(0.4, 0.25)); p.setcfg("interp", tri(0.45, 0.4));
+        p.setcfg("projevery", tri(0.4, 0.3)); p.setcfg("projinterp", tri(0.4, 0.35)); p.setcfg("infnorm", tri(0.4, 0.3)); p.setcfg("fullnewton", tri(0.6, 0.1));
         { int ns = r.chance(0.4) ? 0 : r.range(1, 4); std::string s; std::vector<double> ts; for (int i = 0; i < ns; ++i) ts.push_back(r.chance(0.3) ? std::round(r.uni(0, T) * 8) / 8 : r.uni(0, T)); std::sort(ts.begin(), ts.end());
           for (double t : ts) { char b[40]; std::snprintf(b, sizeof b, "%.17g ", t); s += b; } p.setcfg("sched", s); }
         int nw = r.chance(0.5) ? 0 : r.range(1, 2);
@@ -192,13 +194,14 @@ struct C21 : vf::Engine {
         if (fixed > 0 && ik != 6) integ->setFixedStepSize(fixed);
         if (p.cfgr("maxstep", 0) > 0 && fixed <= 0) integ->setMaximumStepSize(p.cfgr("maxstep", 0));
         const double f = p.cfgr("final", -1) >= 0 ? p.cfgr("final", -1) : Infinity; if (f < Infinity) integ->setFinalTime(f);
-        if (p.cfgn("every", 0)) integ->setReturnEveryInternalStep(true);
-        if (!p.cfgn("interp", 1)) integ->setAllowInterpolation(false);
-        const bool projInterp = p.cfgn("projinterp", 1) != 0, infNorm = p.cfgn("infnorm", 0) != 0;
-        if (p.cfgn("projevery", 0)) integ->setProjectEveryStep(true);
-        integ->setProjectInterpolatedStates(projInterp);
-        if (infNorm) integ->setUseInfinityNorm(true);
-        if (p.cfgn("fullnewton", 0)) integ->setForceFullNewton(true);
+        // -1: leave the option unset, so that the integrator's documented default is what is exercised
+        if (p.cfgn("every", -1) >= 0) integ->setReturnEveryInternalStep(p.cfgn("every", 0) != 0);
+        if (p.cfgn("interp", -1) >= 0) integ->setAllowInterpolation(p.cfgn("interp", 1) != 0);
+        const bool projInterp = p.cfgn("projinterp", -1) != 0 /* default: project */, infNorm = p.cfgn("infnorm", -1) > 0 /* default: RMS */;
+        if (p.cfgn("projevery", -1) >= 0) integ->setProjectEveryStep(p.cfgn("projevery", 0) != 0);
+        if (p.cfgn("projinterp", -1) >= 0) integ->setProjectInterpolatedStates(projInterp);
+        if (p.cfgn("infnorm", -1) >= 0) integ->setUseInfinityNorm(infNorm);
+        if (p.cfgn("fullnewton", -1) >= 0) integ->setForceFullNewton(p.cfgn("fullnewton", 0) != 0);
         std::vector<double> timeline; { std::istringstream is(p.cfg("sched", "")); double t; while (is >> t) if (t >= 0) timeline.push_back(t); std::sort(timeline.begin(), timeline.end()); }
         const std::string isig = std::string("integrator=") + IntegNames[ik];
         res.count(std::string("integ_") + IntegNames[ik]);
